@@ -181,6 +181,7 @@ def _helper_requests(p, kv, tier):
     n = len(kv) - p - 1
     lo, hi = kv[p], kv[n]
     interior = sorted(set(k for k in kv if lo < k < hi))
+    ADD = [lo + (hi - lo) * a for a in globals()['ADD']] if (lo, hi) != (0.0, 1.0) else globals()['ADD']   # inside the domain
     dens = [1, 2] if tier == 'quick' else [1, 2, 3]
     out = []
     if len(interior) > 4:
@@ -258,7 +259,7 @@ def _helper_one(ctx, case, desc, a, p, kv, rows_form, ctrl, build_def, d_orig, s
     ctx.check('C05.helper.no_crash', True, rc, feats)
     exp_kv = sorted(U0 + [k for k, r in need for _ in range(max(r, 0))])
     got = [F(x) for x in new_kv]
-    kv_ok = len(got) == len(exp_kv) and all(abs(float(x - y)) <= 1e-14 for x, y in zip(got, exp_kv)) and \
+    kv_ok = len(got) == len(exp_kv) and all(abs(float(x - y)) <= 1e-14 * max(1.0, abs(float(y))) for x, y in zip(got, exp_kv)) and \
         all(x <= y for x, y in zip(got, got[1:]))
     ctx.check('C05.helper.knotvector', kv_ok, rc, feats, [float(x) for x in exp_kv], list(new_kv),
               'original knots plus every requested knot (after d-fold bisection of the request list) raised to multiplicity p')
